@@ -41,6 +41,7 @@ func init() {
 			"Oracle over the call log: attempts <= max(retries,0)+1; attempt k+1 only if attempt k did not commit, its last back-end error was retriable and RetriableError answered true; every operation of attempt k is on the workspace obtained in attempt k and never on a destroyed one; a manifest write is preceded by a manifest read from the same workspace; Destroy exactly once per failed attempt that obtained a workspace; nil result <=> every back end accepted a commit; Result exactly once with that commit after it, never without a commit; committed manifest keeps every entry that the writer or an earlier run committed. " +
 			"Appended audit dimensions (same checker, each submission judged on its own call log): (i) option combinations in the quick tier: snapshot mode, snapshot mode with an SVSM image, snapshot mode on two back ends; (ii) budgets at the limits of the integer types (math.MinInt.., -(2^32)+k, -(2^31)-1, -65535, -255: one attempt allowed, scripts go on for three; 2^31.., math.MaxInt: chains of 0..6 retriable failures) through both entry points; (iii) kept values: 3-5 submissions in a row through ONE endorse.Context, ONE context around it, one or two back-end values (Context.VCS / VCSs[1] / VCSs[2]) and one change function, the caller changing CommitRetries, candidate, image, timestamp and entry point in between, PRNG-drawn scripts; the back-end model keeps its head, so every manifest entry committed by an earlier submission must survive, and a workspace obtained in an earlier submission counts as stale; (iv) lockstep groups: 2-3 independent submissions in flight in one process, a PRNG-driven scheduler gives the turn at every back-end operation (exactly one runs at a time, the interleaving is a function of the seed). " +
 			"History dimensions (hist.go, appended after all of the above; same checker): (v) ALL scripts over {ok; get / read#1..4 / write#1..3 / chmod#1..2 / commit failing retriably or permanently; a TryCommit that LANDS on the head and is then answered with a retriable or permanent error (lost acknowledgement); genuine conflict} x {nobody; somebody else commits another entry; somebody else commits THE IDENTICAL entry (same digest, path, create time) before the attempt} for CommitRetries in {-1,0,1} (thorough {-2..2}) plus a 2-operation alphabet for CommitRetries=2 (thorough 3), each x {without, with --overwrite}, the head starting with 2 resp. 3 manifest entries; (vi) resubmission sequences: 2-5 submissions through ONE endorse.Context / context / one or two back-end values where the caller submits the same candidate, image and timestamp again, or changes only the timestamp, only the candidate or only the image, with and without --overwrite, PRNG-drawn scripts including landed-but-unacknowledged commits and the twin writer. " +
+			"Error-shape dimension (errs.go, appended after all of the above; same checker): (vii) the scripted failure is the back end's own error value AND something well-known (wraps context.DeadlineExceeded / context.Canceled while the caller's context is live, os.ErrDeadlineExceeded, net.OpError, url.Error, io.EOF, syscall ECONNRESET / ETIMEDOUT / EAGAIN, fs permission / exist / not-exist, gRPC Unavailable / Aborted / DeadlineExceeded / PermissionDenied, Timeout()/Temporary()/Retriable() methods, a message that says 'conflict, retry' or 'fatal', endorse.ErrNoRetries, errors.Join of two), and the back end's verdict is independent of the shape: ALL 22 shapes x every operation of an attempt x CommitRetries in {1,3} x {plain context; context with a deadline that has not passed} x scripts {P; R ok; R P; plain-R P; R..R; for TryCommit also P landed, R landed ok} through endorse.VirtualFirmware and endorse.RetrySubmit with a caller's change function, plus two back ends with the shaped failure in the second one. " +
 			"non-trivial = runs with at least one failed attempt or one concurrent commit; distinct = (entry, mode, retries, attempts made, how it ended, concurrent commits seen, genuine conflicts seen) cells",
 		Assumptions: []string{
 			"negative budgets are read as 'no retries' (one attempt); stopping early is not judged (the property says 'at most') but the run is inconclusive unless, for every budget, some script was observed to use exactly max(retries,0)+1 attempts",
@@ -52,6 +53,7 @@ func init() {
 			"lockstep: submissions that are in flight together share nothing but the process (own Context, own back-end values); sharing one endorse.Context between goroutines is not exercised (VirtualFirmware writes Context.VCS)",
 			"a TryCommit that lands on the head but is answered with an error counts as a FAILED commit (that is all the caller can know): success may only be reported after a TryCommit that answered with a commit, and Result records that one; an attempt that finds its entry on the head already is not exempt from this",
 		"history dimensions: entries at the submission's own path or with its own digest may be rewritten (C13's subject); a resubmission without --overwrite is expected to be refused by the repository and is only judged for honesty, bounds and clean-up",
+		"error shapes: the back end alone decides what is retriable (RetriableError finds its own value in the error chain, through the repository's wrapping with %w); whatever else the error is or says carries no weight; not retrying an error the back end calls retriable is not judged ('at most')",
 		"fault positions are per attempt: n-th call of a kind inside the attempt; an operation the code never reaches cannot fail, the oracle therefore judges the logged answers, not the script",
 		},
 		ShardsQuick: 16, ShardsThor: 16, TimeoutS: 600, TimeoutThor: 3000, Run: run,
@@ -131,6 +133,9 @@ type job struct {
 	// history dimensions (hist.go); zero elsewhere
 	overwrite bool // the caller allows existing endorsement files to be overwritten (--overwrite)
 	initial   int  // > 0: the depot starts with exactly this many manifest entries (instead of the PRNG's 0 or 2)
+
+	// error-shape dimension (errs.go)
+	liveDeadline bool // the context handed to the entry point has a deadline that never passes during the run
 }
 
 func (j job) String() string {
@@ -143,6 +148,9 @@ func (j job) String() string {
 	}
 	if j.initial > 0 {
 		s += fmt.Sprintf(" head-starts-with-%d-entries", j.initial)
+	}
+	if j.liveDeadline {
+		s += " context-has-a-deadline-that-has-not-passed"
 	}
 	if j.cancel != nil {
 		s += fmt.Sprintf(" context-done(%s)@%v back-ends-%s-it", map[bool]string{false: "Canceled", true: "DeadlineExceeded"}[j.deadline], j.cancel,
@@ -384,7 +392,8 @@ func run(c *core.Ctx) {
 	}
 	c.Max("scripts-enumerated-in-tier", int64(len(js)))
 	next := runAudit(c, w, ncase, fl)
-	runHistory(c, w, next, fl)
+	next = runHistory(c, w, next, fl)
+	runShapes(c, w, next, fl)
 	if c.Only >= 0 {
 		return // a replay decides by its violations only
 	}
@@ -402,6 +411,9 @@ func run(c *core.Ctx) {
 		c.Floor(n, fl[n])
 	}
 	for _, n := range historyFloors {
+		c.Floor(n, fl[n])
+	}
+	for _, n := range shapeFloors {
 		c.Floor(n, fl[n])
 	}
 }
@@ -430,6 +442,9 @@ func runJob(c *core.Ctx, w *world, ci, k int, j job, r *rand.Rand, fl map[string
 			ctl.fire()
 			rec.add(event{VCS: -1, Ev: "ctx-done", Path: "before the call"})
 		}
+	}
+	if j.liveDeadline && j.cancel == nil {
+		base = scriptedCtx{Context: base, c: newCtl(true)} // never fired
 	}
 	for vi, s := range j.scripts {
 		v := newVCS(vi, rec, s, outDir, snapDir, initial)
@@ -597,7 +612,9 @@ func runJob(c *core.Ctx, w *world, ci, k int, j job, r *rand.Rand, fl map[string
 			c.Cell("%s|%s|retries=%d|%s|%s", j.entry, j.mode, j.retries, end, ctxCell)
 		}
 	}
-	if j.dim == "history" {
+	if j.dim == "error-shape" {
+		shapeEvidence(c, j, rec.log, per, rerr, fl)
+	} else if j.dim == "history" {
 		historyEvidence(c, j, vs, rec.log, per, rerr, fl)
 	} else if j.dim != "" {
 		extraEvidence(c, j, per, rerr, fl)
@@ -628,7 +645,7 @@ func callerChange(v *vcs) func(context.Context, endorse.ChangeOps) (string, erro
 		}
 		o := v.cur()
 		if o.Kind == "change" && o.Class != clsNone {
-			err := &vcsErr{VCS: v.id, Attempt: v.attempt, Op: "caller's change function", Class: o.Class}
+			err := shaped(&vcsErr{VCS: v.id, Attempt: v.attempt, Op: "caller's change function", Class: o.Class}, o.Shape)
 			e.Err, e.Class = err.Error(), o.Class
 			v.rec.add(e)
 			return "", fmt.Errorf("change: %w", err)
